@@ -207,6 +207,18 @@ def scan_forbidden():
         for m in FORBIDDEN.finditer(txt2):
             # "Parameter" may legally appear inside a Section as "Variable"; we never use the word at all
             bad.append('%s: %s' % (os.path.relpath(f, VERIF), m.group(0)))
+        # Variable / Hypothesis / Context outside a Section declares an axiom
+        depth = 0
+        for sent in re.split(r'\.\s', txt2):
+            w = sent.strip().split()
+            if not w:
+                continue
+            if w[0] == 'Section' or (w[0] == 'Module' and ':=' not in sent):
+                depth += 1
+            elif w[0] == 'End':
+                depth = max(0, depth - 1)
+            elif depth == 0 and w[0] in ('Variable', 'Variables', 'Hypothesis', 'Hypotheses', 'Context'):
+                bad.append('%s: %s outside a Section' % (os.path.relpath(f, VERIF), w[0]))
     return bad
 
 
